@@ -184,9 +184,13 @@ def _update_tree (force_dpid = None):
   # Now modify ports as needed
   try:
     change_count = 0
-    for sw, ports in tree.items():
-      con = core.openflow.getConnection(sw)
-      if con is None: continue # Must have disconnected
+    # Visit every connected switch, not just the ones in the tree: a switch
+    # without any two-way link has no tree ports, but its other ports still
+    # need the right flood bit (on for edge ports, off for the ends of links
+    # we have only seen in one direction -- or which used to be blocked).
+    for con in list(core.openflow.connections):
+      sw = con.dpid
+      ports = tree.get(sw, ())
       if con.connect_time is None: continue # Not fully connected
 
       if _hold_down:
